@@ -523,7 +523,9 @@ class Part(object):
                     normal_dur *= 4 / ts.beat_type
                 if musical_beat:
                     normal_dur = ts.musical_beats
-                if actual_dur < normal_dur:
+                # a full measure must not be taken for a pickup because of rounding
+                # in the interpolated duration
+                if actual_dur < normal_dur and not np.isclose(actual_dur, normal_dur):
                     y -= actual_dur
             else:
                 # warn
